@@ -9,6 +9,13 @@
 (2) Runtime tie and failing-input search: re-entrancy injection through public extension points (overridden _uncached_*,
     lazy `required`, __providedBy__ descriptors, raising factories, specifications whose unsubscribe looks up) on both
     flavours and twins; the thorough tier adds a thread stress.
+(3) The dual schedules — a MUTATOR interrupted by lookups (`inmut`): every point of register / unregister / subscribe /
+    unsubscribe / rebuild at which other Python code can run (the calls into the documented storage hooks _sequenceType,
+    _mappingType, _providedType, _leafSequenceType), crossed with where the lookups go (the registry itself, registries one
+    and two levels below, verifying ones) and who makes them (re-entrant code, a second thread the mutator is forced to
+    yield to at that point).  Oracle: a ledger of what the scenario registered.  The mutators' own step sequences are
+    translated from adapter.py (tools/cextract.py) into the IR of ZI.Mutator and Lean decides that each one leaves no
+    stale cache entry behind (theorem ZI.Mutator.wipes_sound: changed() after the last write on every path).
 PARTIAL: thread schedules finer than callback granularity in the pure-Python twin, free-threaded builds and allocator
 behaviour beyond the dict free list are not exhibited by the model."""
 import os
@@ -19,8 +26,10 @@ import threading
 
 from .. import core, runner
 
-THEOREMS = ["ZI.Own.check_sound", "ZI.Own.safe_op", "ZI.Own.inv_step", "ZI.Detach.check_sound", "ZI.Detach.safe_store", "ZI.Detach.rel_step"]
-GEN_THEOREMS = ["own_lookup", "own_lookupAll", "own_subscriptions", "own_verify", "detach_lookup", "detach_lookupAll", "detach_subscriptions", "loops_snapshot"]
+THEOREMS = ["ZI.Own.check_sound", "ZI.Own.safe_op", "ZI.Own.inv_step", "ZI.Detach.check_sound", "ZI.Detach.safe_store", "ZI.Detach.rel_step",
+            "ZI.Mutator.wipes_sound", "ZI.Mutator.post_sound", "ZI.Mutator.step_sound"]
+GEN_THEOREMS = ["own_lookup", "own_lookupAll", "own_subscriptions", "own_verify", "detach_lookup", "detach_lookupAll", "detach_subscriptions", "loops_snapshot",
+                "mutators_wipe"]
 EPS = ["lookup", "lookup1", "lookupAll", "subscriptions", "queryAdapter", "adapter_hook", "queryMultiAdapter"]
 
 
@@ -46,6 +55,9 @@ def translate(chk):
         for m in re.finditer(r"COwnGen\.lean:(\d+):\d+: error", text):
             ln = p.stdout.splitlines()[int(m.group(1)) - 1]
             unmet.append("obligation no longer checks: " + ln[:120])
+            if "mutators_wipe" in ln:
+                bad = re.findall(r'\("mp_(\w+)", false\)', text)
+                unmet[-1] += " [a lookup running at a hook of %s can leave an answer in a cache that the rest of the mutator outdates: on some path the last write is not followed by an effective self.changed()]" % ", ".join(bad)
         if not unmet:
             unmet.append("lean failed on the generated obligations: " + text[-300:])
     chk.count("generated_obligations", len(GEN_THEOREMS))
@@ -70,7 +82,48 @@ def scenarios(tier):
                 L.append("midwalk %s %s" % (fl, ep))
             L.append("shrink %s %s" % (fl, ep))
         L.append("pychanged %s lookup" % fl)
-    return L
+    return L + inmut_lines(tier)
+
+
+MUTATORS = ["register", "replace", "unregister", "unregister-last", "subscribe", "subscribe-new", "unsubscribe", "unsubscribe-last", "rebuild"]
+COMBOS = [(fl, pl, how) for fl in ("push", "verifying") for pl in ("same", "below1", "below2", "mixed") for how in ("reenter", "thread")
+          if not (pl == "mixed" and fl == "verifying")]       # `mixed`: verifying registries below an invalidating one
+QUICK_STRIDE = 5
+
+
+def inmut_lines(tier):
+    """mutator x (flavour, placement of the lookups, re-entrant / thread) x point of the mutator.  thorough: every point for every
+    combination; quick: the combinations take turns — combination i visits the points k with (k + i + seed) % 5 == 0, so that every
+    point of every mutator is visited by two or three of the fourteen combinations"""
+    stride = 1 if tier == "thorough" else QUICK_STRIDE
+    return ["inmut %s %s %s %s %d %d" % (fl, pl, mu, how, stride, (i + core.seed()) % stride)
+            for mu in MUTATORS for i, (fl, pl, how) in enumerate(COMBOS)]
+
+
+def inmut_stats(chk, mode, lines, out):
+    """evidence for the `inmut` class: how many points each mutator has, how many were visited, what was asked there"""
+    pts, visited = {}, {}
+    for l, o in zip(lines, out):
+        f = l.split()
+        if f[0] != "inmut" or not o.startswith("ok "):
+            continue
+        st = dict(kv.split("=") for kv in o.split()[1:])
+        mu, stride, off, P = f[3], int(f[5]), int(f[6]), int(st["points"])
+        pts[mu] = max(pts.get(mu, 0), P)
+        visited.setdefault(mu, set()).update(k for k in range(1, P + 1) if (k + off) % stride == 0)
+        chk.count("inmut_lines_%s" % mode)
+        chk.count("inmut_interrupted_mutator_runs_%s" % mode, int(st["runs"]))
+        chk.count("inmut_lookups_judged_%s" % mode, int(st["lookups"]))
+        chk.count("inmut_%s_runs_%s" % (f[4], mode), int(st["runs"]))
+        chk.count("inmut_runs_lookups_%s_%s" % ("same" if f[2] == "same" else "below", mode), int(st["runs"]))
+        # lookups inside rebuild() that saw a registry holding only part of the registrations (neither the state before
+        # nor the state after the whole rebuild; judged per elementary re-registration): made visible, not hidden
+        chk.count("inmut_rebuild_partial_answers_%s" % mode, int(st["partial"]))
+    chk.counters["inmut_points_per_mutator_%s" % mode] = dict(sorted(pts.items()))
+    chk.counters["inmut_points_visited_%s" % mode] = {mu: len(v) for mu, v in sorted(visited.items())}
+    blind = [mu for mu in MUTATORS if mu in pts and len(visited.get(mu, ())) < pts[mu]] + [mu for mu in MUTATORS if mu not in pts]
+    if blind and not any(not o.startswith("ok") for o in out):
+        chk.notes.append("inmut (%s): not every point of %s was visited" % (mode, ", ".join(blind)))
 
 
 STRESS = r'''
@@ -133,27 +186,44 @@ def stress(seconds):
 
 def check(tier):
     chk = core.Check("C11", tier)
-    chk.obligations(THEOREMS, ["C11_atomic (step-granularity interleavings of one mutator with any number of lookups) — stated in DESIGN.md, exercised by the "
-                               "stale / stale-pre scenarios and the thread stress only"])
-    unmet, gen_src = translate(chk)
+    chk.obligations(THEOREMS, ["C11_atomic (step-granularity interleavings of one mutator with any number of lookups) — stated in DESIGN.md; its second half (after "
+                               "the mutator completes every cache entry is a post-state answer) is ZI.Mutator.wipes_sound for complete lookups at the mutator's "
+                               "hooks, tied by translation of adapter.py; the first half (pre- or post-state answers) is exercised by the stale / stale-pre / inmut "
+                               "scenarios and the thread stress only"])
     lines = scenarios(tier)
     fails = []
-    for m in ("c", "py"):
+
+    def run_mode(m):
+        """-> (output lines or None, failures)"""
         try:
-            out = core.run_impl("reentry", lines, m)
-        except core.ImplBroken as e:
+            return core.run_impl("reentry", lines, m), []
+        except core.ImplBroken:
             # a crash of the interpreter inside a scenario IS the failing input
-            bad = runner.isolate_crash("reentry", lines, m) if False else None
             for l in lines:
                 try:
                     core.run_impl("reentry", [l], m, timeout=60)
                 except core.ImplBroken as e2:
-                    fails.append(dict(mode=m, script=[l], message="the interpreter crashed or hung in scenario %r: %s" % (l, str(e2)[-200:]), observed="<crash>"))
-                    break
+                    return None, [dict(mode=m, script=[l], message="the interpreter crashed or hung in scenario %r: %s" % (l, str(e2)[-200:]), observed="<crash>")]
+            return None, []
+    # the translation (a Lean process) and the two twins' executors are independent processes: run them side by side
+    from concurrent.futures import ThreadPoolExecutor
+    with ThreadPoolExecutor(max_workers=3) as ex:
+        ft = ex.submit(translate, chk)
+        core.build_overlay()
+        fm = [(m, ex.submit(run_mode, m)) for m in ("c", "py")]
+        unmet, gen_src = ft.result()
+        results = [(m, f_.result()) for m, f_ in fm]
+    for m, (out, broken) in results:
+        fails.extend(broken)
+        if out is None:
             continue
         chk.count("scenarios_%s" % m, len(lines))
+        inmut_stats(chk, m, lines, out)
         for l, o in zip(lines, out):
-            if o != "ok":
+            if o != "ok" and not o.startswith("ok "):
+                k = re.search(r"point (\d+) of", o) if l.startswith("inmut ") else None
+                if k:       # the replay interrupts the mutator at the failing point only: (k + offset) % stride == 0 for that k alone
+                    l = " ".join(l.split()[:5] + ["1000000", str(1000000 - int(k.group(1)))])
                 fails.append(dict(mode=m, script=[l], message="%s -> %s" % (l, o), observed=o))
     if tier == "thorough":
         res = stress(20)
@@ -194,9 +264,12 @@ def check(tier):
     chk.samples.extend(lines[:6])
     ev = chk.finish(len(lines) * 2, len(lines),
                     "translation: the ownership IR of 4 C functions and the fetch/callback/store IR of 3, plus the iteration mode of the Python loops in changed(), "
-                    "regenerated from the current sources and decided by Lean (8 generated obligations); runtime: 9 re-entrancy scenarios x 2 registry flavours x up to 7 "
+                    "regenerated from the current sources and decided by Lean (9 generated obligations); runtime: 9 re-entrancy scenarios x 2 registry flavours x up to 7 "
                     "entry points x 2 twins (stray write through a dangling cache pointer, stale answer after a mutation inside the uncached computation, mutation before "
                     "the computation, reference leaks on failing factories / unhashable provided, lazy `required`, mutating __providedBy__, re-entered changed()); "
+                    "mutators interrupted by lookups (inmut): 9 mutator calls x every point at which they call into the documented storage hooks x lookups on the same "
+                    "registry / 1-2 levels below / verifying below x re-entrant / forced thread switch, every entry point judged against a ledger during and after "
+                    "(quick: each point visited by 2-3 of the 14 combinations, thorough: by all), and the step IR of the mutators translated from adapter.py (mutators_wipe); "
                     "thorough adds a 4-thread stress per flavour and twin; distinct_nontrivial = scenarios",
                     dict(obligations=len(THEOREMS) + len(GEN_THEOREMS), discharged=(chk.lean or {}).get("discharged", 0) + len(GEN_THEOREMS) - len(unmet),
                          generated_from="src/zope/interface/_zope_interface_coptimizations.c, adapter.py, interface.py (tools/cextract.py)"))
@@ -219,7 +292,7 @@ def replay(path):
     bad = 0
     for l, o in zip(script, out):
         print("%-40s %s" % (l, o))
-        bad += o != "ok"
+        bad += o != "ok" and not o.startswith("ok ")
     if bad:
         print("VIOLATION property=C11 replay=%s" % path)
         return 1
